@@ -445,6 +445,60 @@ def run_steps5(chk, prop, tier, pk):
                 prop, prog, at, lines[at - 1][:200] if 0 < at <= len(lines) else ""))
 
 
+STEP6 = [("put:1.5,put:12.85,get:16.10", "1,12"), ("put:1.5,get:12.40,get:1.5", "1"), ("put:12.85,get:12.80,get:2.10", "12"), ("put:1.5,put:16.90,get:16.90", "1"),
+         ("put:9.5,put:9.85,get:9.40", "9"), ("put:8.85,put:9.5,get:1.10", "8,9")]
+
+
+def run_steps6(chk, prop, tier, pk):
+    """S: interior split of YkConc6 on the real code (fan-out 15, full interior root over 16 borders) under random and PCT schedules; every
+    logged access must be the enabled model step with the same value (TraceConc6); LinOK, ParentOK and Quiescent are evaluated on every
+    state of the accepted executions."""
+    import os, re
+    from common import tlc, tlc_tail, build, run, BUILD
+    from tracecheck import write_cfg
+    exe = build("stepdrv6", ["stepdrv6.cpp"], sessions=16)
+    nruns = 8 if tier == "quick" else 80
+    for pi, (prog, fill) in enumerate(STEP6[:3] if tier == "quick" else STEP6):
+        out = ""
+        bad = False
+        for sched in ("random", "pct"):
+            rc, o, err = run([exe, "prog=" + prog, "fill=" + fill, "runs=%d" % nruns, "seed=%d" % seed(), "sched=" + sched], timeout=300)
+            lines = o.splitlines()
+            if lines and '"op":"fault"' in lines[-1]:
+                chk.violation("fault", "implementation faulted in step-level interior-split run %s: %s" % (prog, lines[-1]), chk.save_replay("fault_step6_%d.ndjson" % pi, "\n".join(lines[-30:])))
+                bad = True
+                break
+            if rc != 0 or any('"e":"abort"' in x for x in lines[-2:]):
+                if prop == "C09" and any('"e":"abort"' in x for x in lines[-2:]):
+                    chk.violation("deadlock", "step-level interior-split run %s did not complete: %s" % (prog, lines[-1][:300]), chk.save_replay("abort_step6_%d.ndjson" % pi, "\n".join(lines[-200:])))
+                else:
+                    chk.notes.append("stepdrv6 %s did not complete: %s" % (prog, (lines[-1] if lines else err)[:200]))
+                bad = True
+                break
+            out += o if not out else "\n".join(lines[1:]) + "\n"
+        if bad:
+            continue
+        lines = out.splitlines()
+        tr = os.path.join(BUILD, "traces", "step6_%s_%d.ndjson" % (pk, pi))
+        open(tr, "w").write(out)
+        cfg = write_cfg(os.path.join(BUILD, "cfg", "tc6_%s_%d.cfg" % (pk, pi)), constants={"F": 15, "Keys": "<- KeysT", "Threads": "{0, 1, 2}", "Prog": "<- ProgT", "InitB": "<- InitBT",
+                        "NO_PARENT_RECHECK": "FALSE", "NO_SPLIT_MARK": "FALSE"}, invariants=["LinOK", "ParentOK", "Quiescent"], constraint="Record")
+        res = tlc("TraceConc6", cfg, env={"TRACE": tr}, workers=1, timeout=900, deque=True)
+        chk.add_tlc(res, "step-level conformance of the interior split (full interior root, 16 borders), programs %s, full borders %s (%d runs, %d events)" % (prog, fill, 2 * nruns, len(lines)))
+        if res.ok:
+            chk.traces += 2 * nruns
+            chk.cov["step_events_conforming"] = chk.cov.get("step_events_conforming", 0) + len(lines)
+        elif res.violated in ("LinOK", "ParentOK", "Quiescent"):
+            rp = chk.save_replay("step6_%d_%s.txt" % (pi, res.violated), tlc_tail(res, 60))
+            chk.violation("step-trace-" + res.violated, "%s violated on a real execution (%s) followed step by step in YkConc6" % (res.violated, prog), rp)
+        else:
+            m = re.search(r'<<"STUCK", (\d+)', res.out)
+            at = int(m.group(1)) if m else 0
+            chk.cov["divergences"] = chk.cov.get("divergences", 0) + 1
+            log("DIVERGENCE property=%s at=step-level interior split %s event %d: %s (the code's access sequence differs from YkConc6; not a violation)" % (
+                prop, prog, at, lines[at - 1][:200] if 0 < at <= len(lines) else ""))
+
+
 def main(prop, tier):
     chk = Check(prop, tier)
     chk.assumptions += ["sequentially consistent executions only: one controlled thread runs at a time, preemption at the verification hooks (every atomic load/store/CAS of version, permutation, slot, link and root words)",
